@@ -10,7 +10,8 @@ LEAN_MODULES = ['BR.Props.C12']
 THEOREMS = ['BR.C12.screw_change_is_Ad', 'BR.C12.wrench_change_is_AdT', 'BR.C12.change_same_frame', 'BR.C12.screw_change_compose',
             'BR.C12.screw_change_roundtrip', 'BR.C12.wrench_change_roundtrip', 'BR.C12.pairing_invariant', 'BR.C12.moment_is_p_cross_f',
             'BR.C12.zero_moment_at_application', 'BR.C12.add_mixed_frames', 'BR.C12.add_sub_cancel', 'BR.C12.sub_scalar_eq_add_neg',
-            'BR.C12.rsub_scalar_eq_neg_sub', 'BR.C12.mul_div_cancel']
+            'BR.C12.rsub_scalar_eq_neg_sub', 'BR.C12.mul_div_cancel', 'BR.C12.add_sub_cancel_mixed', 'BR.C12.sub_add_cancel_mixed',
+            'BR.C12.arr_add_sub_cancel', 'BR.C12.arr_rsub_eq_neg_sub']
 TIE = ('K: hand-written model lean/BR/Model/Screw.lean (frame change through globalToLocal and Adjoint exactly as the code, the 1e-8 frame-equality short-cut, '
        'operator fall-through branches); every run evaluates the Float instance (compiled driver) and the real Screw/Wrench objects on the same operand kinds x frame triples.')
 TRUSTED = ['Lean 4.33 kernel + Mathlib v4.33 (axioms: propext, Classical.choice, Quot.sound)', 'harness/c12.py generators and tolerances',
